@@ -138,6 +138,9 @@ impl Board {
     }
 
     pub fn push_en_passant_target(&mut self, target_square: Bitboard) -> Bitboard {
+        let previous_target = self.move_info.peek_en_passant_target();
+        self.position_info
+            .update_zobrist_hash_toggle_en_passant_target(previous_target);
         self.position_info
             .update_zobrist_hash_toggle_en_passant_target(target_square);
         self.move_info.push_en_passant_target(target_square)
@@ -151,6 +154,9 @@ impl Board {
         let target_square = self.move_info.pop_en_passant_target();
         self.position_info
             .update_zobrist_hash_toggle_en_passant_target(target_square);
+        let restored_target = self.move_info.peek_en_passant_target();
+        self.position_info
+            .update_zobrist_hash_toggle_en_passant_target(restored_target);
         target_square
     }
 
